@@ -84,6 +84,8 @@ def main():
             d[k] = enc(v)
         out[name] = d
     import numpy, construct
+    # the exception hierarchy of the construct library itself (a contract may name a class the repository module does not import)
+    out["construct.core#exceptions"] = {k: enc(v) for k, v in vars(construct.core).items() if isinstance(v, type) and issubclass(v, BaseException)}
     meta = {"python": sys.version.split()[0], "numpy": numpy.__version__,
             "construct": construct.__version__, "byteorder": sys.byteorder,
             "repo": REPO, "import_errors": errors}
